@@ -112,7 +112,7 @@ func allInputs() []input {
 	return []input{
 		{"i0:only-string", ln(3, []byte("s0")), true},
 		{"i1:one-of-each", cat(vi(1, 11), ln(2, nested(21, true)), ln(3, []byte("s1"))), true},
-		{"i2:three", cat(vi(1, 0), vi(1, 102), vi(1, 103), ln(2, nested(201, false)), ln(2, nil), ln(2, nested(203, true))), true},
+		{"i2:three", cat(vi(1, 0), vi(1, 102), vi(1, 103), ln(2, nested(201, false)), ln(2, nil), ln(2, nested(203, true)), ln(2, nil)), true}, // an empty nested message in the middle and as the LAST occurrence (what NestedResult returns)
 		{"i3:forty-and-five", i3, true},
 		{"i4:packed-tag1-empty-nested", cat(ln(1, cat(refwire.AppendVarint(nil, 9), refwire.AppendVarint(nil, 0), refwire.AppendVarint(nil, 300))), ln(2, nil)), true},
 		{"i5:malformed-tail", cat(vi(1, 66), vi(1, 67), ln(2, nested(68, true)), []byte{0x1a, 0x7f, 0x01}), false},
